@@ -8,14 +8,15 @@
 #
 import re
 
-from ural.patterns import QUERY_VALUE_IN_URL_TEMPLATE, CONTROL_CHARS_RE
+from ural.patterns import QUERY_VALUE_IN_URL_TEMPLATE, CONTROL_CHARS_RE, ASCII
 from ural.utils import unquote, urljoin, urlsplit
 from ural.quote import unquote_letters
 
 OBVIOUS_REDIRECTS_RE = re.compile(
     QUERY_VALUE_IN_URL_TEMPLATE
     % r"(?:redirect(?:_to)?|target|redir|next|link|orig|goto|url|[luq])",
-    re.I,
+    # NOTE: ascii letters only ("lin\u212a", with a kelvin sign, is not "link")
+    re.I | ASCII,
 )
 # NOTE: a host can come with a port, and is case-insensitive
 REDIRECTION_DOMAINS_RE = re.compile(
